@@ -30,6 +30,12 @@ func main() {
 	switch os.Args[1] {
 	case "check":
 		os.Exit(cmdCheck(os.Args[2:]))
+	case "survey":
+		os.Exit(cmdSurvey(os.Args[2:]))
+	case "surveyeval":
+		os.Exit(cmdSurveyEval(os.Args[2:]))
+	case "compose":
+		os.Exit(cmdCompose(os.Args[2:]))
 	case "show":
 		os.Exit(cmdShow(os.Args[2:]))
 	case "list":
